@@ -81,6 +81,8 @@ type Map struct {
 	index   map[string]int
 	live    int
 	id      int
+	symKeys bool // some entry has a key with symbolic parts: lookups compare entry by entry
+	symSeq  int
 }
 
 type Chan struct {
